@@ -106,7 +106,7 @@ func init() {
 		MinEvals:    800000,
 		MinCounters: map[string]int64{"digits_17_to_19": 100000, "digits_20_to_800": 50000, "digits_over_800": 500, "expect_range_error": 1000, "expect_subnormal": 2000, "oracle_rechecked_with_exact_rational_arithmetic": 3000, "oracle_is_exact_rational_arithmetic_where_strconv_is_known_to_be_wrong": 300}})
 	register(&Spec{ID: "C05", Run: RunC05, Extra386Shards: 4,
-		Rule:        "inputs: W6a (every value within a window of each type bound and each 18/19/20-digit switch-over point x 3 whitespace prefixes x 21 followers, hand shapes, random digit strings of 1-40 digits) and the W1 byte sweep of top-level tokens; each through all six Read* and six Decode* integer functions against a math/big model, once on the native 64-bit build and once more on a GOARCH=386 build of checker and library (int and uint are 32 bits wide there and take other code paths; the notes say whether that pass ran); distinct by input hash per build; non-trivial = input starts (after whitespace and optional '-') with a digit",
+		Rule:        "inputs: W6a (every value within a window of each type bound and each 18/19/20-digit switch-over point x 3 whitespace prefixes x 21 followers, hand shapes, random digit strings of 1-40 digits) and the W1 byte sweep of top-level tokens; each through all six Read* and six Decode* integer functions against a math/big model, once on the native 64-bit build and once more on a GOARCH=386 build of checker and library (int and uint are 32 bits wide there and take other code paths; the notes say whether that pass ran); distinct by input hash (the 32-bit pass re-runs the same inputs: it adds executions, not distinct cases); non-trivial = input starts (after whitespace and optional '-') with a digit",
 		Assumptions: commonAssumptions, MinEvals: 3000000,
 		MinCounters: map[string]int64{"expect_success_Int64": 50000, "expect_error_Int64": 50000, "expect_success_Uint32": 10000, "expect_error_Uint64": 50000}})
 }
